@@ -222,11 +222,12 @@ def autocrop(data, px):
     """
     com = centroid(data, unit='pixels')
     cy, cx = (int(c) for c in com)
+    # the window is px samples wide and the centroid sample lands on its origin sample px//2
     w = px // 2
     aoi_y_l = cy - w
-    aoi_y_h = aoi_y_l + w
+    aoi_y_h = aoi_y_l + px
     aoi_x_l = cx - w
-    aoi_x_h = aoi_x_l + w
+    aoi_x_h = aoi_x_l + px
     return data[aoi_y_l:aoi_y_h, aoi_x_l:aoi_x_h]
 
 
